@@ -77,7 +77,11 @@ class Program(object):
                 L.append('        delay: %s' % r.get('delay', 0))
             for pol in ('wait-before', 'wait-after', 'timeout'):
                 if d.get(pol) is not None:
-                    L.append('      %s: %s' % (pol, d[pol]))
+                    L.append('      %s: %s' % (pol, d[pol] if not d.get('pol_expr') else '<%% %d %%>' % d[pol]))
+            if d.get('pause-before'):
+                L.append('      pause-before: true')
+            if d.get('fail-on'):
+                L.append('      fail-on: <% true %>')
             if d.get('publish'):
                 L.append('      publish:')
                 for k, v in sorted(d['publish'].items()):
@@ -114,7 +118,9 @@ class Program(object):
                                 requires=list(d.get('requires') or []), outcome=oc, wf=P.name, sub=d.get('workflow', ''),
                                 items=(d['with_items'] if d.get('with_items') is not None else -1),
                                 conc=(d['concurrency'] if d.get('concurrency') is not None else 0),
-                                retry=((d.get('retry') or {}).get('count', 0)))
+                                retry=((d.get('retry') or {}).get('count', 0)), delay=((d.get('retry') or {}).get('delay', 0)),
+                                waitBefore=(d.get('wait-before') or 0), waitAfter=(d.get('wait-after') or 0),
+                                timeout=(d.get('timeout') or 0), pauseBefore=bool(d.get('pause-before')), failOn=bool(d.get('fail-on')))
                 inbound[t] = sorted(set(s for s in P.order for key in ('succ', 'err', 'comp')
                                         for e in (P.tasks[s].get(key) or []) if e['to'] == t))
                 order.append(t)
@@ -133,7 +139,7 @@ class Program(object):
 CMDS = ['fail', 'succeed', 'noop']
 
 
-def gen_direct(rnd, n=None, p_sub=0.0, p_items=0.0, p_retry=0.0, p_join=0.9, p_join1=0.2, p_err=0.3, p_guard=0.3, p_cmd=0.15, p_comp=0.2, allow_cmd=True, max_out=2):
+def gen_direct(rnd, n=None, partial_joins=True, p_sub=0.0, p_items=0.0, p_retry=0.0, p_policy=0.0, p_join=0.9, p_join1=0.2, p_err=0.3, p_guard=0.3, p_cmd=0.15, p_comp=0.2, allow_cmd=True, max_out=2):
     """Random direct DAG: edges go forward in the task order; a task with >= 2 inbound edges is a
     join (all / one / N) with probability p_join (otherwise it runs once per trigger)."""
     P = Program()
@@ -175,7 +181,7 @@ def gen_direct(rnd, n=None, p_sub=0.0, p_items=0.0, p_retry=0.0, p_join=0.9, p_j
     for t in names:
         if len(inbound[t]) >= 2:
             if rnd.random() < p_join:
-                k = rnd.choice([-1, -1, 1, min(2, len(inbound[t]))])
+                k = rnd.choice([-1, -1, 1, min(2, len(inbound[t]))]) if partial_joins else -1
                 P.tasks[t]['join'] = k
                 if k != -1 and k < len(inbound[t]):
                     P.flags['partial_join'] = True
@@ -217,6 +223,14 @@ def gen_direct(rnd, n=None, p_sub=0.0, p_items=0.0, p_retry=0.0, p_join=0.9, p_j
             d['retry'] = {'count': c, 'delay': rnd.choice([0, 1])}
             P.oracle[t] = [rnd.choice(['ok', 'err']) for _ in range(c + 1)]
             P.flags['retry'] = True
+        if rnd.random() < p_policy:
+            pol = rnd.choice(['wait-before', 'wait-after', 'timeout', 'timeout', 'fail-on'])
+            if pol == 'fail-on':
+                d['fail-on'] = True
+            else:
+                d[pol] = rnd.choice([1, 2, 3])
+                d['pol_expr'] = rnd.random() < 0.3
+            P.flags['policy'] = True
     return P
 
 
